@@ -173,7 +173,11 @@ def _functions(tree) -> Dict[str, ast.AST]:
     def rec(body, prefix):
         for st in body:
             if isinstance(st, (ast.FunctionDef, ast.AsyncFunctionDef)):
-                out.setdefault(prefix + st.name, st)
+                k, i = prefix + st.name, 0
+                while k in out:          # property getter / setter pairs
+                    i += 1
+                    k = '%s%s#%d' % (prefix, st.name, i)
+                out[k] = st
             elif isinstance(st, ast.ClassDef):
                 rec(st.body, prefix + st.name + '.')
             elif isinstance(st, (ast.If, ast.Try)):
